@@ -75,7 +75,7 @@ func genC12(t *rapid.T) CaseC12 {
 		if rapid.IntRange(0, 7).Draw(t, "shorthand") > 0 || hasWildcard(p.Old) || countIndexed(p.Old) > 0 {
 			nlen := rapid.IntRange(1, 3).Draw(t, "nlen")
 			for j := 0; j < nlen; j++ {
-				p.New = append(p.New, rapid.SampledFrom([]string{"n1", "n2", "n3", "q"}).Draw(t, "nkey"))
+				p.New = append(p.New, rapid.SampledFrom([]string{"n1", "n2", "n3", "q", "n1", "n2", "a", "b", "k", "list", "sub", "items"}).Draw(t, "nkey"))
 			}
 		}
 		c.Pairs = append(c.Pairs, p)
